@@ -135,3 +135,39 @@ def saving_is_pure_and_deterministic(H, cname):
     s2 = rw.write_container(H, Synth(m))
     H.check("second_synth_save_identical_bytes", H.eq(s2, s1))
     H.cover("reached")
+
+
+def _resave_cases(tier):
+    out = []
+    for c in K.module_classes():
+        if c.mtype == "Output":
+            continue
+        out.append((K.cls_id(c), K.cls_id(c)))
+    return out
+
+
+@contract(
+    "resave_is_byte_stable", ["C05"], cases=_resave_cases,
+    targets=["rv.synth:Synth.chunks", "rv.readers.reader:read_sunvox_file", "rv.readers.module:ModuleReader.process_*",
+             "rv.modules.module:Module.get_raw", "rv.modules.module:Module.set_raw", "rv.modules.*:<Type>.load_chunk",
+             "rv.modules.metamodule:UserDefinedProxy.instance_value_type"],
+)
+def resave_is_byte_stable(H, cname):
+    """Whole-object statement of the property: X = bytes of a module with symbolic state;
+    Y = save(load(X)); Z = save(load(Y)).  ensures Z == Y byte for byte (for every value of the state)."""
+    from rvproof.sym import PathInfeasible  # noqa
+
+    if cname == "Sampler":
+        from .c16 import VARIANTS, build_sampler
+
+        m = build_sampler(H, VARIANTS["three_slots"])
+    else:
+        m = _build_any(H, cname)
+    x = rw.write_container(H, Synth(m))
+    m1 = rw.read_back(H, x).module
+    y = rw.write_container(H, Synth(m1))
+    m2 = rw.read_back(H, y).module
+    z = rw.write_container(H, Synth(m2))
+    H.check("second_cycle_bytes_equal_first_cycle_bytes", H.eq(z, y))
+    H.check("same_length", len(z) == len(y))
+    H.cover("reached")
